@@ -5,7 +5,9 @@ EXTENDS Naturals, Sequences, TLC
 CONSTANT N
 VARIABLE c
 Kinds == {"word", "star", "decimal", "int0", "estr", "str", "dstr", "bstr", "dq", "var", "sysvar", "qvar",
-          "paren", "eq", "comma", "param", "nlstr"}
+          "paren", "eq", "comma", "param", "nlstr",
+          \* doubled single quotes inside a double-quoted literal; a statement separator inside quotes / a quoted name
+          "dq2sq", "semistr", "semibq"}
 Seps == {"sp", "sp2", "nl", "nlind", "blockcmt", "linecmt", "nl2"}
 Init == c \in UNION {{[ks |-> ks, sep |-> s] : ks \in [1..n -> Kinds], s \in Seps} : n \in 1..N}
 Next == UNCHANGED c
